@@ -55,7 +55,15 @@ struct Use {
 #endif
 			(void) c;
 		}
-		void query(Ev&, typename FSM::ConstControl& c) const { (void) c.isActive(0); }
+		void query(Ev&, typename FSM::ConstControl& c) const {
+			(void) c.isActive(0); (void) c.template isActive<B>(); (void) c._(); (void) c.request();
+#if HAS_PLANS
+			auto p = c.plan(); for (auto it = p.begin(); it; ++it) (void) it->origin;
+#endif
+#if HAS_HISTORY
+			(void) c.previousTransitions();
+#endif
+		}
 	};
 	struct B : FSM::State { void exitGuard(typename FSM::GuardControl& c) { c.cancelPendingTransition(); } };
 	template <typename TInstance> static void common(TInstance& m) {
@@ -63,8 +71,12 @@ struct Use {
 		m.update(); m.react(e); m.query(e); m.template changeTo<B>(); m.immediateChangeTo(0);
 		(void) m.activeStateId(); (void) m.isActive(1);
 #if HAS_PLANS
-		m.plan().change(0, 1); m.succeed(0); m.fail(1); m.plan().clear();
+		m.plan().change(0, 1); m.succeed(0); m.fail(1);
+		{ const TInstance& cm = m; auto cp = cm.plan(); auto p = m.plan(); if (p && cp) { (void) p.first(); (void) p.last(); (void) cp.first(); (void) cp.last(); } }
+		m.template succeed<B>(); m.template fail<B>(); m.plan().template change<A>(1);
+		m.plan().clear();
 #endif
+		(void) m.template isActive<A>(); m.template immediateChangeTo<A>();
 #if HAS_HISTORY
 		(void) m.previousTransition(); m.replayTransition(1);
 #endif
